@@ -50,21 +50,24 @@ package creds
 //@   modifies fresh
 //@ func FirstEntryForKey
 //@   assumed
-//@   props C17
-//@   noeffect
+//@   props C17 C10
+//@   pure
+//@   ensures @def result == credfirst(input, key)
 
 // C10: the question put to the credential helpers names exactly the scheme
 // and host (with port) of the URL the credentials are wanted for, and the
 // wrapper remembers that URL.
 //@ func (*CredentialHelperContext).GetCredentialHelper
-//@   props C10
+//@   props C10 C17
+//@   ensures @C17 helper == nil ==> ctxt.commandCredHelper.protectProtocol == urlbool("protectProtocol")
 //@   requires @inv ctxt != nil && u != nil && ctxt.urlConfig != nil && ctxt.commandCredHelper != nil
 //@   ensures result.Url == u && has(result.Input, "host") && len(result.Input["host"]) == 1 && result.Input["host"][0] == old(u.Host)
 //@   ensures has(result.Input, "protocol") && len(result.Input["protocol"]) == 1 && result.Input["protocol"][0] == old(u.Scheme)
 //@ func (*github.com/git-lfs/git-lfs/v3/config.URLConfig).Bool
 //@   assumed
-//@   props C10
-//@   noeffect
+//@   props C10 C17
+//@   modifies ghost urlbool[key]
+//@   ensures result == urlbool(key)
 //@ func (*github.com/git-lfs/git-lfs/v3/config.URLConfig).Get
 //@   assumed
 //@   props C10
@@ -73,3 +76,19 @@ package creds
 //@   assumed
 //@   props C10
 //@   modifies fresh
+
+// C10: the in-memory credential cache files a credential under the protocol,
+// the host *with its port* and the path it was obtained for, and answers a
+// question only from the entry filed under exactly those three.
+//@ func credCacheKey
+//@   props C10
+//@   pure
+//@   ensures result == scat(scat(scat(scat(credfirst(creds, "protocol"), "//"), credfirst(creds, "host")), "//"), credfirst(creds, "path"))
+//@ func (*credentialCacher).Fill
+//@   props C10
+//@   requires @inv c != nil && c.creds != nil && credHelperNoOp != nil
+//@   ensures result1 == nil ==> has(c.creds, scat(scat(scat(scat(credfirst(what, "protocol"), "//"), credfirst(what, "host")), "//"), credfirst(what, "path"))) && result0 == c.creds[scat(scat(scat(scat(credfirst(what, "protocol"), "//"), credfirst(what, "host")), "//"), credfirst(what, "path"))]
+//@ func (*credentialCacher).Approve
+//@   props C10
+//@   requires @inv c != nil && c.creds != nil
+//@   ensures has(c.creds, scat(scat(scat(scat(credfirst(what, "protocol"), "//"), credfirst(what, "host")), "//"), credfirst(what, "path")))
